@@ -134,6 +134,9 @@ pub fn c04_configs(tier: Tier) -> Vec<InCfg> {
                 // drained (seeded change C04_r4). Smaller alphabet, same length.
                 let mut ep0 = ep.clone();
                 ep0.tag = "EP";
+                if !hauto && pauto {
+                    ep0.min_chunk_size = 1;
+                }
                 v.push(InCfg {
                     ep: ep0,
                     connect_props: vec![],
@@ -142,9 +145,15 @@ pub fn c04_configs(tier: Tier) -> Vec<InCfg> {
                         T::Pub { qos: 1, id: 0, len: 1, topic: 0, alias: 0 },
                         T::Ping,
                         T::Sub(0),
-                    ],
+                        // a publish in three writes: with payload streaming on its chunks are requests of their own
+                        // (no response), so more queue slots are used up per packet - the response queue's ring
+                        // buffer wraps within the length bound (seeded change C04_r7)
+                    ]
+                    .into_iter()
+                    .chain(if !hauto && pauto { Some(T::PubSplit3 { qos: 1, id: 0, len: 8 }) } else { None })
+                    .collect(),
                     prologue: vec![],
-                    max_len: if tier == Tier::Quick { 4 } else { 5 },
+                    max_len: if tier == Tier::Quick { if !hauto && pauto { 3 } else { 4 } } else { 5 },
                     // v5: a handler error the application maps to a negative acknowledgement is a response like any
                     // other and keeps its place in the order (seeded change C04_r6 wrote it straight to the sink)
                     outcomes: if ver == Ver::V5 && !hauto { vec![GateOutcome::Ok, GateOutcome::Nack(0x87)] } else { vec![GateOutcome::Ok] },
